@@ -61,6 +61,36 @@ func judge(r *run, res *simrt.Result) {
 	r.checkOrder(m)
 	r.checkTeardown(m)
 	r.checkInnocent(m)
+	r.relabel()
+}
+
+// relabel maps violations of the general oracles to the property whose
+// statement they fall under in this profile (e.g. a subscription that does not
+// take effect is a routing violation in general and a C07 violation when the
+// profile is about SUBSCRIBE/UNSUBSCRIBE taking effect).
+func (r *run) relabel() {
+	var from []string
+	to := ""
+	switch r.sc.Profile {
+	case "suback":
+		from, to = []string{"C01"}, "C07"
+	case "session":
+		from, to = []string{"C01"}, "C10"
+	case "witness":
+		from, to = []string{"C01", "C17", "C02", "C07", "C19"}, "C05"
+	}
+	if to == "" {
+		return
+	}
+	for i := range r.out.Violations {
+		v := &r.out.Violations[i]
+		for _, f := range from {
+			if v.Prop == f {
+				v.Sig = to + "/via-" + v.Sig
+				v.Prop = to
+			}
+		}
+	}
 }
 
 func trim(s string, n int) string {
@@ -412,7 +442,7 @@ func (r *run) checkRouting(m *Model) {
 				al = append(al, allowed[f])
 			}
 			if !assign(qs, al) {
-				r.viol("C01", "delivery-qos", fmt.Sprintf("C01/wrong-qos/pub%d-got%v", p.QoS, qs)+emptyLevelTag(p, grantsBy[sk]), "%s received message %s (publish QoS %d) at QoS %v; matching subscriptions: %s", who, p.Key, p.QoS, qs, fmtGrants(grantsBy[sk]))
+				r.viol("C01", "delivery-qos", "C01/wrong-qos"+emptyLevelTag(p, grantsBy[sk]), "%s received message %s (publish QoS %d) at QoS %v; matching subscriptions: %s", who, p.Key, p.QoS, qs, fmtGrants(grantsBy[sk]))
 			}
 			if certain && len(copies) == 0 {
 				r.viol("C01", "at-least-once", "C01/missing-delivery"+emptyTag(p)+emptyLevelTag(p, grantsBy[sk]), "%s holds a matching subscription for the whole time in which the broker accepted message %s (topic %q, QoS %d, %d bytes, window [%d,%d]) but never received it; subscriptions: %s", who, p.Key, p.Topic, p.QoS, len(p.Payload), p.Lo, p.Hi, fmtGrants(grantsBy[sk]))
@@ -435,6 +465,19 @@ func emptyLevelTag(p *Pub, gs []*Grant) string {
 	for _, g := range gs {
 		if hasEmptyLevel(g.Filter) {
 			return "/empty-level"
+		}
+		// an UNSUBSCRIBE naming a filter with an empty level removes other
+		// subscriptions of the same subscriber (same defect)
+		if g.C != nil {
+			for _, w := range g.C.Up {
+				if w.P.Type == refmqtt.UNSUBSCRIBE || w.P.Type == refmqtt.SUBSCRIBE {
+					for _, f := range w.P.Filters {
+						if hasEmptyLevel(f) {
+							return "/empty-level"
+						}
+					}
+				}
+			}
 		}
 	}
 	return ""
